@@ -563,7 +563,15 @@ find_key (const DBusString *str,
   
   if (key_start == key_end)
     {
-      /* Empty match rules or trailing whitespace are OK */
+      /* Empty match rules or trailing whitespace are OK, but nothing
+       * may follow an empty key: "=x" is not a match rule */
+      if (*p != '\0')
+        {
+          dbus_set_error (error, DBUS_ERROR_MATCH_RULE_INVALID,
+                          "Match rule has an empty key");
+          return FALSE;
+        }
+
       *value_pos = p - s;
       return TRUE;
     }
